@@ -372,3 +372,40 @@ Theorem C04_replace_lemma :
     | SFuel => RFuel
     end.
 Proof. reflexivity. Qed.
+
+(* The windows fit together: `top n` and `skip n` split the one sequence between them, a
+   `skip s take t` window is what `top t` would select from the `skip s` window, a window never
+   selects more than it was asked for, and a clause that asks for at least everything returns
+   everything. *)
+Theorem C04_windows_compose_lemma :
+  forall (fuel : nat) (prog : list instr) (text : bytes) (A : list mrec),
+    find_matches fuel prog text true 0 0 0 = SOk A ->
+    (forall n, exists T S,
+        find_matches fuel prog text false 0 n 0 = SOk T /\
+        find_matches fuel prog text true n 0 0 = SOk S /\
+        T ++ S = A /\ length T = Nat.min n (length A)) /\
+    (forall s t, exists S W,
+        find_matches fuel prog text true s 0 0 = SOk S /\
+        find_matches fuel prog text false s t 0 = SOk W /\
+        W = firstn t S /\ length W = Nat.min t (length A - s)) /\
+    (forall n, length A <= n ->
+        find_matches fuel prog text false 0 n 0 = SOk A /\
+        (1 <= n -> find_matches fuel prog text true 0 0 n = SOk A)) /\
+    (forall n, 1 <= n -> exists L,
+        find_matches fuel prog text true 0 0 n = SOk L /\
+        find_matches fuel prog text true (length A - n) 0 0 = SOk L /\
+        length L = Nat.min n (length A)).
+Proof.
+  intros fuel prog text A H.
+  destruct (C04_find_matches_lemma _ _ _ _ H) as (H1 & H2 & H3 & H4).
+  repeat split.
+  - intro n. exists (firstn n A), (skipn n A). repeat split; auto.
+    + apply firstn_skipn.
+    + apply firstn_length.
+  - intros s t. exists (skipn s A), (firstn t (skipn s A)). repeat split; auto.
+    rewrite firstn_length, skipn_length. reflexivity.
+  - rewrite H1. rewrite firstn_all2 by assumption. reflexivity.
+  - intro Hn. rewrite (H4 _ Hn). replace (length A - n) with 0 by lia. reflexivity.
+  - intros n Hn. exists (skipn (length A - n) A). repeat split; auto.
+    rewrite skipn_length. lia.
+Qed.
